@@ -9,6 +9,10 @@ import (
 	"time"
 
 	"github.com/form3tech-oss/f1/v2/internal/trigger/api"
+	"github.com/form3tech-oss/f1/v2/internal/trigger/constant"
+	"github.com/form3tech-oss/f1/v2/internal/trigger/gaussian"
+	"github.com/form3tech-oss/f1/v2/internal/trigger/ramp"
+	"github.com/form3tech-oss/f1/v2/internal/trigger/staged"
 	"github.com/form3tech-oss/f1/v2/internal/verifharness/hlib"
 	"github.com/form3tech-oss/f1/v2/internal/verifshim/vrand"
 )
@@ -38,6 +42,128 @@ var seqs = []rateSeq{
 	}},
 	{"alternate", func(k int) int { return (k % 2) * 7 }},
 	{"ramp", func(k int) int { return 2 * k }},
+	// rates beyond 32 bits (int is 64 bits wide here)
+	{"const2^31-1", func(int) int { return 1<<31 - 1 }},
+	{"const3e9", func(int) int { return 3_000_000_000 }},
+	{"const2^40", func(int) int { return 1 << 40 }},
+}
+
+// builders: the same oracle on the rate functions the trigger builders return
+// (distribution none), against the same builder with jitter 0 evaluated at the
+// same instants - whatever a builder puts around the jitter is covered too.
+type builder struct {
+	name  string
+	build func(j float64) (*api.Rates, error)
+}
+
+var builders = []builder{
+	{"constant 10/1s", func(j float64) (*api.Rates, error) { return constant.CalculateConstantRate(j, "10/1s", "none") }},
+	{"constant 3/100ms", func(j float64) (*api.Rates, error) { return constant.CalculateConstantRate(j, "3/100ms", "none") }},
+	{"constant 1000/1s", func(j float64) (*api.Rates, error) { return constant.CalculateConstantRate(j, "1000/1s", "none") }},
+	{"staged 0s:5,3s:40,6s:0 every 1s", func(j float64) (*api.Rates, error) {
+		return staged.CalculateStagedRate(j, time.Second, "0s:5,3s:40,6s:0", "none", nil)
+	}},
+	{"ramp 0/1s-60/1s over 6s", func(j float64) (*api.Rates, error) {
+		return ramp.CalculateRampRate("0/1s", "60/1s", "none", 6*time.Second, j)
+	}},
+	{"gaussian 5000 per 10s, peak 5s, sigma 2s, every 1s", func(j float64) (*api.Rates, error) {
+		return gaussian.CalculateGaussianRate(5000, j, 10*time.Second, time.Second, 5*time.Second, 2*time.Second, "", "none")
+	}},
+}
+
+func builderSuite(length int) hlib.Suite {
+	return hlib.Suite{Name: fmt.Sprintf("jitter/through-the-trigger-builders/length=%d", length), Run: func(r *hlib.Rec) {
+		total := 1
+		for i := 0; i < length; i++ {
+			total *= len(uAlpha)
+		}
+		defer func() { vrand.Script = nil }()
+		for _, j := range []float64{0, 5, 20, 75, 99} {
+			for _, b := range builders {
+				if !r.Mine() {
+					continue
+				}
+				base, err := b.build(0)
+				if err != nil {
+					panic(err)
+				}
+				ref := make([]int, length)
+				rmax := 0
+				for k := range ref {
+					ref[k] = base.Rate(now.Add(time.Duration(k) * base.IterationDuration))
+					rmax = max(rmax, ref[k])
+				}
+				codes := total
+				if j == 0 {
+					codes = 1
+				}
+				for code := 0; code < codes; code++ {
+					if r.Expired() {
+						return
+					}
+					rs, err := b.build(j)
+					if err != nil {
+						panic(err)
+					}
+					input := fmt.Sprintf("builder=%s jitter=%v random-script=%d (base %d digits, u in %v)", b.name, j, code, len(uAlpha), uAlpha)
+					runCase(r, j, length, code, func(k int) int { return ref[k] }, func(k int) int { return rs.Rate(now.Add(time.Duration(k) * rs.IterationDuration)) }, rmax, nil, input)
+				}
+				r.Distinct(fmt.Sprintf("%v %s", j, b.name))
+			}
+		}
+	}}
+}
+
+// runCase drives length ticks of one jittered rate function under one scripted
+// random sequence and checks every clause on every tick.
+func runCase(r *hlib.Rec, j float64, length, code int, rateAt func(k int) int, outAt func(k int) int, rmax int, evals *int, input string) {
+	r.Eval()
+	jf := j / 100
+	bound := (jf*float64(rmax) + 0.5) / (1 - jf)
+	c := code
+	draws := 0
+	vrand.Script = func() float64 {
+		u := uAlpha[c%len(uAlpha)]
+		c /= len(uAlpha)
+		draws++
+		return u
+	}
+	r.SampleCase(input)
+	balance := 0.0
+	sumOut, sumRate := 0, 0
+	for k := 0; k < length; k++ {
+		rate := rateAt(k)
+		out := outAt(k)
+		requested := float64(rate) + balance
+		if out < 0 {
+			r.Fail("C13/negative", "negative", fmt.Sprintf("tick %d: output %d", k, out), input)
+		}
+		if j == 0 && out != rate {
+			r.Fail("C13/zero-jitter-identity", "changed", fmt.Sprintf("tick %d: %d became %d", k, rate, out), input)
+		}
+		if requested >= 0 {
+			if d := math.Abs(float64(out) - requested); d > jf*requested+0.5+1e-9+1e-14*requested { // the last term: float64 rounding at rates beyond 2^40
+				r.Fail("C13/single-value", "outside-jitter-band", fmt.Sprintf("tick %d: output %d, rate+carry %.4f, allowed deviation %.4f", k, out, requested, jf*requested+0.5), input)
+			}
+		} else if out != 0 {
+			r.Fail("C13/single-value", "negative-request-not-zero", fmt.Sprintf("tick %d: output %d for rate+carry %.4f", k, out, requested), input)
+		}
+		balance = requested - float64(out)
+		sumOut += out
+		sumRate += rate
+		if d := math.Abs(float64(sumOut - sumRate)); d > bound+1e-6+1e-13*float64(rmax) {
+			r.Fail("C13/running-total", "outside-fixed-bound", fmt.Sprintf("after tick %d: applied %d, configured %d, fixed bound %.3f", k, sumOut, sumRate, bound), input)
+		}
+	}
+	if evals != nil && *evals != length {
+		r.Fail("C13/underlying-rate", "not-once-per-tick", fmt.Sprintf("the un-jittered rate was evaluated %d times in %d ticks", *evals, length), input)
+	}
+	if j == 0 && draws != 0 {
+		r.Fail("C13/zero-jitter-identity", "draws", "zero jitter still draws random numbers", input)
+	}
+	if j != 0 && draws != length {
+		r.Fail("C13/draws", "not-one-per-tick", fmt.Sprintf("%d draws for %d ticks", draws, length), input)
+	}
 }
 
 func suite(length int) hlib.Suite {
@@ -58,8 +184,6 @@ func suite(length int) hlib.Suite {
 						rmax = v
 					}
 				}
-				jf := j / 100
-				bound := (jf*float64(rmax) + 0.5) / (1 - jf)
 				codes := total
 				if j == 0 {
 					codes = 1
@@ -68,57 +192,12 @@ func suite(length int) hlib.Suite {
 					if r.Expired() {
 						return
 					}
-					r.Eval()
-					c := code
-					draws := 0
-					vrand.Script = func() float64 {
-						u := uAlpha[c%len(uAlpha)]
-						c /= len(uAlpha)
-						draws++
-						return u
-					}
-					k := 0
 					// the un-jittered rate is a stateful function (as the gaussian one is): its n-th
 					// evaluation yields the n-th value, whenever it is made
 					evals := 0
 					fn := api.WithJitter(func(time.Time) int { v := sq.f(evals); evals++; return v }, j)
 					input := fmt.Sprintf("jitter=%v rates=%s random-script=%d (base %d digits, u in %v)", j, sq.name, code, len(uAlpha), uAlpha)
-					r.SampleCase(input)
-					balance := 0.0
-					sumOut, sumRate := 0, 0
-					for k = 0; k < length; k++ {
-						rate := sq.f(k)
-						out := fn(now)
-						requested := float64(rate) + balance
-						if out < 0 {
-							r.Fail("C13/negative", "negative", fmt.Sprintf("tick %d: output %d", k, out), input)
-						}
-						if j == 0 && out != rate {
-							r.Fail("C13/zero-jitter-identity", "changed", fmt.Sprintf("tick %d: %d became %d", k, rate, out), input)
-						}
-						if requested >= 0 {
-							if d := math.Abs(float64(out) - requested); d > jf*requested+0.5+1e-9 {
-								r.Fail("C13/single-value", "outside-jitter-band", fmt.Sprintf("tick %d: output %d, rate+carry %.4f, allowed deviation %.4f", k, out, requested, jf*requested+0.5), input)
-							}
-						} else if out != 0 {
-							r.Fail("C13/single-value", "negative-request-not-zero", fmt.Sprintf("tick %d: output %d for rate+carry %.4f", k, out, requested), input)
-						}
-						balance = requested - float64(out)
-						sumOut += out
-						sumRate += rate
-						if d := math.Abs(float64(sumOut - sumRate)); d > bound+1e-6 {
-							r.Fail("C13/running-total", "outside-fixed-bound", fmt.Sprintf("after tick %d: applied %d, configured %d, fixed bound %.3f", k, sumOut, sumRate, bound), input)
-						}
-					}
-					if evals != length {
-						r.Fail("C13/underlying-rate", "not-once-per-tick", fmt.Sprintf("the un-jittered rate was evaluated %d times in %d ticks", evals, length), input)
-					}
-					if j == 0 && draws != 0 {
-						r.Fail("C13/zero-jitter-identity", "draws", "zero jitter still draws random numbers", input)
-					}
-					if j != 0 && draws != length {
-						r.Fail("C13/draws", "not-one-per-tick", fmt.Sprintf("%d draws for %d ticks", draws, length), input)
-					}
+					runCase(r, j, length, code, sq.f, func(int) int { return fn(now) }, rmax, &evals, input)
 					if code < 8 {
 						r.Distinct(fmt.Sprintf("%v %s %d", j, sq.name, code))
 					}
@@ -131,9 +210,9 @@ func suite(length int) hlib.Suite {
 
 func suites(tier string) []hlib.Suite {
 	if tier == "quick" {
-		return []hlib.Suite{suite(7)}
+		return []hlib.Suite{suite(7), builderSuite(7)}
 	}
-	return []hlib.Suite{suite(9)}
+	return []hlib.Suite{suite(9), builderSuite(9)}
 }
 
 func main() { hlib.EnumMain("C13", suites) }
